@@ -289,7 +289,7 @@ func checkC19(c *vlib.Ctx) (string, string) {
 		shapes += len(trees)
 	}
 	c.Set("tree_texts_enumerated", shapes)
-	for mask := 0; mask < 1<<12 && !c.Stopped(); mask++ {
+	for mask := 0; mask < 1<<13 && !c.Stopped(); mask++ {
 		c.States.Add(1)
 		c.Transitions.Add(2)
 		if mask&(mask-1) != 0 {
@@ -327,6 +327,17 @@ func c19JudgeConfig(mask int) *vlib.Failure {
 	if mask&(1<<10) != 0 { // a second (and third) wildcard: violations only together with Credentialed
 		cfg.ResponseHeaders = append(cfg.ResponseHeaders, "X-Foo", "*", "*")
 		if cfg.Credentialed {
+			want += 2
+		}
+	}
+	if mask&(1<<12) != 0 {
+		// * listed before a pattern that needs the insecure switch: with credentials and with a PNA mode each of the
+		// two is a violation of its own
+		cfg.Origins = append([]string{"*", "http://insecure.example"}, cfg.Origins...)
+		if cfg.Credentialed {
+			want += 2
+		}
+		if cfg.PrivateNetworkAccess || cfg.PrivateNetworkAccessInNoCORSModeOnly {
 			want += 2
 		}
 	}
